@@ -38,6 +38,7 @@ func c08Gates(m *MClaims, c psatoken.IClaims, kp keyPair, st *Stats, extRuleBrok
 	prev, _ := baseValid(m.Prof, 0).BuildLiteral()
 	ev := &psatoken.Evidence{Claims: prev}
 	prevObs := Observe(prev)
+	compsBefore, _ := c.GetSoftwareComponents()
 	err := ev.SetClaims(c)
 	if (err == nil) != valid {
 		return fmt.Sprintf("SetClaims: err=%v, Validate()=%v", err, verr)
@@ -55,6 +56,32 @@ func c08Gates(m *MClaims, c psatoken.IClaims, kp keyPair, st *Stats, extRuleBrok
 		}
 	} else if ev.Claims != c {
 		return "SetClaims succeeded but did not attach the given claims"
+	} else {
+		// like the plain assignment ev.Claims = c, attaching leaves the
+		// claims-set as it is: the component objects the caller holds are
+		// still the ones the claims-set holds (a later update through them
+		// must reach what gets encoded and signed)
+		compsAfter, _ := c.GetSoftwareComponents()
+		if len(compsAfter) != len(compsBefore) {
+			return fmt.Sprintf("SetClaims changed the number of components from %d to %d", len(compsBefore), len(compsAfter))
+		}
+		for i := range compsBefore {
+			if compsBefore[i] != compsAfter[i] {
+				return fmt.Sprintf("SetClaims replaced component object #%d of the claims-set it attached by another object (the plain assignment ev.Claims = c does not): an update through the object the caller holds would no longer be encoded", i)
+			}
+		}
+		if len(compsBefore) > 0 {
+			if sc, ok := compsBefore[0].(*psatoken.SwComponent); ok {
+				old := sc.MeasurementDesc
+				probe := "verif-probe-after-attach"
+				sc.MeasurementDesc = &probe
+				enc, eerr := psatoken.EncodeClaimsToCBOR(ev.Claims)
+				sc.MeasurementDesc = old
+				if eerr == nil && !bytes.Contains(enc, []byte(probe)) {
+					return "an update made through a component object obtained BEFORE SetClaims does not reach the encoding of the attached claims"
+				}
+			}
+		}
 	}
 	st.Class("gate=SetClaims")
 
@@ -251,6 +278,18 @@ func c08Gates(m *MClaims, c psatoken.IClaims, kp keyPair, st *Stats, extRuleBrok
 				if d := Observe(j0).Diff(Observe(j1)); d != "" {
 					return "validating and non-validating JSON decoders differ: " + d
 				}
+			}
+		}
+		// the same document with bytes after (or before) it: whatever the
+		// plain decoder says, the validating one says too
+		for _, v := range []struct{ pre, post string }{{"", "}"}, {"", "]"}, {"", " "}, {"", "\n"}, {"", "{}"}, {"", ","}, {"", "x"}, {"", "\x00"}, {"", "null"}, {" \n\t", ""}, {"\xef\xbb\xbf", ""}, {"[", "]"}, {"", plainJStr(plainJ)}} {
+			doc := []byte(v.pre + string(plainJ) + v.post)
+			x0, e0 := psatoken.DecodeClaimsFromJSON(doc)
+			_, e1 := psatoken.DecodeAndValidateClaimsFromJSON(doc)
+			_, e2 := psatoken.DecodeJSONClaims(doc)
+			accept0 := e0 == nil && x0.Validate() == nil
+			if accept0 != (e1 == nil) || (e1 == nil) != (e2 == nil) {
+				return fmt.Sprintf("JSON document with %q before and %q after it: DecodeClaimsFromJSON+Validate accepts=%v, DecodeAndValidateClaimsFromJSON err=%v, DecodeJSONClaims err=%v", v.pre, truncate(v.post, 20), accept0, e1, e2)
 			}
 		}
 		st.Class("gate=DecodeJSON")
@@ -527,3 +566,5 @@ func TestC08_GatesInContext(t *testing.T) {
 }
 
 var _ = json.Marshal
+
+func plainJStr(b []byte) string { return string(b) }
